@@ -167,13 +167,29 @@ structure Traces (K : Type) where
   witness : Array K
   alu : Array (AluRec K)
 
-/-- `set_public_inputs` / `set_private_inputs` followed by `run`. -/
-def run (canon : K → Nat) (c : Circuit K) (pubs privs : List K) : Except RunErr (Traces K) := do
+/-- `set_public_inputs`. -/
+def setPublics (c : Circuit K) (w : Array (Option K)) (pubs : List K) : Except RunErr (Array (Option K)) :=
   if pubs.length ≠ c.pubRows.size then .error .publicLen else
-  let w0 : Array (Option K) := Array.replicate c.witnessCount none
-  let w1 ← (pubs.zipIdx).foldlM (fun w (vi : K × Nat) => setW w (c.pubRows.getD vi.2 0) vi.1) w0
+  (pubs.zipIdx).foldlM (fun w (vi : K × Nat) => setW w (c.pubRows.getD vi.2 0) vi.1) w
+
+/-- `set_private_inputs`. -/
+def setPrivates (c : Circuit K) (w : Array (Option K)) (privs : List K) : Except RunErr (Array (Option K)) :=
   if privs.length ≠ c.privRows.size then .error .privateLen else
-  let w2 ← (privs.zipIdx).foldlM (fun w (vi : K × Nat) => setW w (c.privRows.getD vi.2 0) vi.1) w1
+  (privs.zipIdx).foldlM (fun w (vi : K × Nat) => setW w (c.privRows.getD vi.2 0) vi.1) w
+
+/-- A caller's session: any sequence of `set_public_inputs` (`true`) / `set_private_inputs`
+(`false`) calls — possibly none, possibly repeated — followed by `run`. -/
+def applyCalls (c : Circuit K) (w : Array (Option K)) : List (Bool × List K) → Except RunErr (Array (Option K))
+  | [] => .ok w
+  | (true, vs) :: rest => do
+    let w ← setPublics c w vs
+    applyCalls c w rest
+  | (false, vs) :: rest => do
+    let w ← setPrivates c w vs
+    applyCalls c w rest
+
+/-- `runner.run()` on a witness table prepared by the caller. -/
+def runFrom (canon : K → Nat) (c : Circuit K) (w2 : Array (Option K)) : Except RunErr (Traces K) := do
   let s ← c.ops.toList.foldlM (execOp canon) ({ w := w2, recs := #[] } : RState K)
   -- rewrite post-pass: every removed duplicate slot receives (or is checked against) the
   -- value of its root
@@ -189,4 +205,20 @@ def run (canon : K → Nat) (c : Circuit K) (pubs privs : List K) : Except RunEr
 
 end
 
+end P3R
+
+namespace P3R
+section
+variable {K : Type} [Zero K] [One K] [Add K] [Sub K] [Mul K] [Inv K] [DecidableEq K]
+
+/-- A session: input-supplying calls, then `run`. -/
+def session (canon : K → Nat) (c : Circuit K) (calls : List (Bool × List K)) : Except RunErr (Traces K) := do
+  let w ← applyCalls c (Array.replicate c.witnessCount none) calls
+  runFrom canon c w
+
+/-- `set_public_inputs` then `set_private_inputs` then `run` (the usual session). -/
+def run (canon : K → Nat) (c : Circuit K) (pubs privs : List K) : Except RunErr (Traces K) :=
+  session canon c [(true, pubs), (false, privs)]
+
+end
 end P3R
